@@ -97,9 +97,9 @@ reg("C15",
     "(1-3 distinct values, adversarial repeats) followed by fresh values; creation histories mix generic/typed header-less requests, "
     "explicit-header requests, answers and generic messages; identifiers must be pairwise distinct and explicit-header objects must "
     "consume nothing.",
-    "Trusted: the substituted source. Sequential histories only in this round; the concurrent clause (threads racing in the draw "
-    "loop) is not decided yet.",
-    "property-based testing with an adversarial random source (Hypothesis)", "DESIGN.md#c15")
+    "Trusted: the substituted source and, for the concurrent clause, the controlled scheduler (2-3 creator threads, source-line "
+    "preemption inside bromelia/base.py, sampled schedules; real locks found on DiameterRequest are replaced by scheduler-aware ones).",
+    "property-based testing with an adversarial random source + controlled-scheduler race testing", "DESIGN.md#c15")
 reg("C16",
     "Model-based history test under a virtual clock: generated histories of Session-Id generation (AVP from identity, typed message, "
     "Acct-Multi-Session-Id, bulk origin updates that switch identity, bytes input) with 0/1/1000 s ticks, many ids per clock second; "
@@ -157,6 +157,15 @@ reg("C07",
     "matched positionally with the answered requests (command, R clear, both identifiers, local origin, Result-Code).",
     "Which requests must be answered is decided by the C06 reference model; fair schedule.",
     "model-based history testing with a positional request/answer oracle", "DESIGN.md#c07")
+
+reg("C14",
+    "Controlled-scheduler concurrency test on a real Bromelia object with an in-process Worker (shim primitives, real send_handler "
+    "loop): 1-4 callers in send_message(), answers dispatched through the real handler_pending_answers in generated permutations "
+    "and delays, duplicates and unsolicited answers, random/PCT-like schedule prefixes with optional line preemption, plus a "
+    "targeted schedule that keeps a caller unscheduled between queueing and registering until its answer has been handled; "
+    "oracle = identity of the returned answer object, bounded liveness, empty registry.",
+    "'Always wakes' is bounded liveness (20 virtual seconds, fair completion); schedules sampled + one targeted window.",
+    "controlled-scheduler concurrency testing (random, PCT-like and targeted preemption)", "DESIGN.md#c14")
 
 ALL = [f"C{i:02d}" for i in range(1, 21)]
 
